@@ -327,10 +327,9 @@ Proof. vm_compute. repeat split. Qed.
     then no bad state is reachable by any execution of Spec/System.v that satisfies the constraints
     at every step ([bad_reachable], unbounded depth).
 
-    Not proved at this level (kept visible): the converse map from a state-level counterexample path
-    back to an execution of Spec/System.v (choice of the inputs step by step), i.e. "Fail implies
-    bad_reachable" is proved for the state-level semantics only ([C10_pdr_model_fail_real]); the
-    witness itself is produced by the BMC fallback (C02/C03) and is replayed on every run. *)
+    Fail: a bad state is reachable by an execution of Spec/System.v of at most MAX_FRAMES steps (the
+    state-level counterexample path is mapped back to an execution, choosing the inputs step by step);
+    the witness itself is the one of the BMC fallback (C02/C03), replayed on every run of ./check. *)
 From Patronus Require Import PdrSys PdrSysProofs.
 
 Theorem C10_pdr_model_success_sound_sys :
@@ -343,3 +342,28 @@ Theorem C10_pdr_model_success_sound_sys :
     ~ bad_reachable sy.
 Proof. exact pdr_model_success_sound_sys. Qed.
 Print Assumptions C10_pdr_model_success_sound_sys.
+
+Theorem C10_pdr_model_fail_real_sys :
+  forall (sy : sys), fin_class sy = true ->
+  forall (W : Type) (solve : nat -> query slit -> answer slit (sstate sy)) (gen_on : bool)
+         (bmc_result : bmc_answer W) (fuel bf : nat) (w : W) (st' : pst slit (sstate sy)),
+    (forall n q, truthful slit slit_eqb (sstate sy) (slit_holds sy) (st_bad0 sy) (st_step0 sy) (st_trans sy) (st_bad sy)
+                          q (solve n q)) ->
+    pdr slit slit_eqb (sstate sy) (scube sy) W solve gen_on (has_bads_of sy) bmc_result fuel bf = Ok (VFail W w, st') ->
+    bmc_result = BmcFail W w /\ (exists d : nat, (d <= MAX_FRAMES)%nat /\ bad_reachable_within sy d).
+Proof. exact pdr_model_fail_real_sys. Qed.
+Print Assumptions C10_pdr_model_fail_real_sys.
+
+Theorem C10_pdr_model_definite_sys :
+  forall (sy : sys), fin_class sy = true ->
+  forall (W : Type) (solve : nat -> query slit -> answer slit (sstate sy)) (gen_on : bool)
+         (bmc_result : bmc_answer W) (fuel bf : nat),
+    (forall n q, truthful slit slit_eqb (sstate sy) (slit_holds sy) (st_bad0 sy) (st_step0 sy) (st_trans sy) (st_bad sy)
+                          q (solve n q)) ->
+    (forall n q, solve n q <> AUnknown slit (sstate sy)) ->
+    match pdr slit slit_eqb (sstate sy) (scube sy) W solve gen_on (has_bads_of sy) bmc_result fuel bf with
+    | Err _ | Panic _ => False
+    | Ok _ | Fuel => True
+    end.
+Proof. exact pdr_model_definite_sys. Qed.
+Print Assumptions C10_pdr_model_definite_sys.
